@@ -20,6 +20,48 @@ Definition reply_tree (id : bytes) (t : tree) : bool :=
   | _ => false
   end.
 
+(* ---- the ways a handler can write (every method of the TokenReadEncoder it is
+   given): EncodeToken, xmlstream.Copy into it, Encode(v), EncodeElement(v, start).
+   responseChecker funnels all of them through its EncodeToken (table read from
+   the source, C07_tables), so each is a sequence of [HWr]; EncodeElement first
+   replaces the outermost start and end tag (marshal.outerWriter) ---- *)
+
+Definition not_xmlns (x : attr) : bool :=
+  negb (is_nil (nspace (aname x)) && bytes_eqb (nlocal (aname x)) (str "xmlns")).
+
+(* marshal.outerWriter: [d] is its depth *)
+Fixpoint outer_from (n : name) (a : list attr) (d : nat) (ts : list token) : list token :=
+  match ts with
+  | [] => []
+  | TStart m b :: r =>
+      (match d with O => TStart n (a ++ filter not_xmlns b) | S _ => TStart m b end) :: outer_from n a (S d) r
+  | TEnd m :: r =>
+      match d with
+      | 1 => TEnd n :: outer_from n a 0 r
+      | S d' => TEnd m :: outer_from n a d' r
+      | O => TEnd m :: outer_from n a 0 r     (* unbalanced input: the Go depth goes negative; not used *)
+      end
+  | t :: r => t :: outer_from n a d r
+  end.
+
+Definition outer_el (n : name) (a : list attr) (ts : list token) : list token := outer_from n a 0 ts.
+
+Inductive wmethod :=
+| MEncodeToken                                  (* EncodeToken, token by token *)
+| MCopy                                         (* xmlstream.Copy(t, reader) *)
+| MEncode                                       (* t.Encode(v), v marshalling to the tokens *)
+| MEncodeElement (n : name) (a : list attr).    (* t.EncodeElement(v, start) *)
+
+(* the tokens that reach the checker's EncodeToken *)
+Definition method_tokens (m : wmethod) (ts : list token) : list token :=
+  match m with
+  | MEncodeElement n a => outer_el n a ts
+  | _ => ts
+  end.
+
+Definition h_write (m : wmethod) (ts : list token) (k : handler) : handler :=
+  fold_right HWr k (method_tokens m ts).
+
 (* ---- stanza.NewIQ ---- *)
 
 Record iqv := mkiqv { q_name : name; q_id : bytes; q_typ : bytes; q_to : bytes; q_from : bytes; q_lang : bytes }.
